@@ -1538,3 +1538,54 @@ func planC16(tier string, seed int64) (*Plan, error) {
 }
 
 func init() { Plans["C16"] = planC16 }
+
+// ---- C20 ----
+
+func planC20(tier string, seed int64) (*Plan, error) {
+	p := &Plan{MustReach: []string{"done"}}
+	thorough := tier == "thorough"
+	var jobs []interp.Job
+	fact := func(n int) int {
+		f := 1
+		for i := 2; i <= n; i++ {
+			f *= i
+		}
+		return f
+	}
+	each := func(entry string, n int, kv ...interface{}) {
+		for o := 0; o < fact(n); o++ {
+			for route := 0; route < 3; route++ {
+				if !thorough && route != (o+int(seed))%3 {
+					continue
+				}
+				jobs = append(jobs, job(entry, append([]interface{}{"order", o, "route", route}, kv...)...))
+			}
+		}
+	}
+	each("H_c20_block", 3, "nt", 2, "nf", 1)
+	each("H_c20_block", 2, "nt", 1, "nf", 1)
+	each("H_c20_block", 2, "nt", 2, "nf", 0)
+	each("H_c20_inline", 3, "n", 3)
+	each("H_c20_render", 3, "n", 3)
+	each("H_c20_transformers", 4, "n", 2)
+	if thorough {
+		each("H_c20_block", 4, "nt", 2, "nf", 2)
+		each("H_c20_inline", 4, "n", 4)
+		each("H_c20_render", 4, "n", 4)
+	} else {
+		jobs = append(jobs, job("H_c20_inline", "n", 4, "order", int(seed)%24, "route", 2), job("H_c20_render", "n", 4, "order", int(seed+7)%24, "route", 1))
+		jobs = append(jobs, job("H_c20_transformers", "n", 3, "order", int(seed*13)%720, "route", 2))
+	}
+	p.Jobs = jobs
+	p.Bounds = map[string]interface{}{
+		"priorities":   "symbolic integers in [1,1999], pairwise distinct and different from 1000 (built-in paragraph parser / HTML renderer): every relative order among the probes and against every built-in priority is covered by solver forks in the real sort.Slice comparator",
+		"components":   "block parsers: 2 on trigger '@' + 1 trigger-less, 1+1, 2+0 (thorough 2+2); inline parsers: 3 on trigger '%' (4 in one order; thorough all); node renderers: 3 overriding ThematicBreak (4 in one order); 2 paragraph + 2 AST transformers (3+3 in one order); which probe accepts is a solver-enumerated choice including 'none'",
+		"registration": "every permutation of the registration order x route {options of New, one Extender calling AddOptions, alternating} (quick: one seeded route per permutation; thorough: all three)",
+		"missing kind": "a node of a kind created after every kind known to the renderer, with a paragraph below it, is rendered: no error, children rendered",
+		"outside":      "equal priorities; more probes; probes sharing a trigger with a built-in parser",
+	}
+	p.Rule = "invocation logs of the probes compared with the order the property states, for all priority assignments of a path at once"
+	return p, nil
+}
+
+func init() { Plans["C20"] = planC20 }
